@@ -145,7 +145,9 @@ def check_trigger(repo, rep):
                 def mk(dec):
                     # two wallets: a comfortable one, and one that holds exactly the position's margin (all-in): the liquidation then
                     # takes the wallet below zero by the fee - the loss is booked in full all the same
-                    it = Interp(repo, stubs=W.base_stubs(), samples=[dict(smp), dict(smp, Wt=smp["P"] * smp["E"] / smp["lev"])],
+                    # ... and a position that a resting order opened INSIDE this very minute (opened_at after the candle's timestamp): the
+                    # check after the minute's matching applies to it like to any other
+                    it = Interp(repo, stubs=W.base_stubs(), samples=[dict(smp), dict(smp, Wt=smp["P"] * smp["E"] / smp["lev"]), dict(smp, t0=F(30000))],
                                 nonneg={"P", "E", "lev", "cp", "f", "Wt"}, decisions=dec)
                     w = build_cycle_world(repo, it, clock)
                     pos, ex = w["pos"], w["ex"]
